@@ -12,6 +12,8 @@ def run(ctx):
     fl = get_flow(F)
     ctx.rule("R06.1", "GDSII -> raw correspondence: points x<-x/y<-y, box corners <- xy[0]/xy[2], layer/purpose <- layer/datatype, path points/width, instance cell/loc/reflection/angle, array lattice <- xy[0..3]/cols/rows, labels -> net or annotation")
     rg.run_tables(ctx, "R06.1e", "R06.1", do_export=False)
+    from rules import convrules as cv
+    cv.run(ctx, "R06.9", ("layout21raw::gds::",), {"p": 20, "t": 5, "w": 10})
     # ---- R06.2 nothing silently dropped
     ctx.rule("R06.2", "every GDSII element kind is imported into instances / elements / labels or reported; no importer returns Ok(None)")
     from rules import C17 as c17
